@@ -335,6 +335,10 @@ impl Gen {
         cfg.cap = cfg.prefix() + r.pick(&[64, 200, ps - 7, ps, ps + 9]);
       }
     }
+    if matches!(p, Profile::Mix | Profile::File) && cfg.backend != 0 && r.chance(3) {
+      // a mapping of many pages: blocks of several whole pages are recycled (see `one_case`)
+      cfg.cap = prefix + r.pick(&[40000u32, 66000]);
+    }
     if tight {
       // with the header pages locked: capacities that just hold the prefix
       cfg.cap = prefix + r.pick(&[0u32, 1, 7, 8, 9, 16, 40]);
@@ -891,6 +895,17 @@ impl Gen {
     self.run_mix(total / 4, false);
     // no handle may outlive a rewind: detach them all, forget the free list
     self.release_all(true, |_| false);
+    if self.rng.chance(18) {
+      // the free list and the discarded counter are still populated when the cursor is taken all the way back and
+      // the arena is cleared right away: clear must reset them too (nothing is allocated in between)
+      let w = self.rng.pick(&["rewind start 0", "rewind end 4294967295", "rewind cur -4294967296"]);
+      self.emit(w.to_string());
+      self.emit("clear".to_string());
+      self.emit("slices".to_string());
+      let rest = self.left;
+      self.run_mix(rest, false);
+      return;
+    }
     self.emit("discard_freelist".to_string());
     let stop = total / 4;
     while self.left > stop && self.case.is_some() {
@@ -1511,6 +1526,20 @@ impl Gen {
         self.emit("slices".to_string());
       }
       return;
+    }
+    if self.ai().capacity >= 30000 {
+      // a dirty block of several whole pages goes back to the arena and is handed out again: zero-filled, whatever
+      // the backing store does with whole pages
+      let ps = page_size() as u64;
+      let n = 5 * ps + self.rng.range(0, ps);
+      if let Some(h) = self.alloc_fill(n) {
+        self.emit(format!("drop {h}"));
+        let h2 = self.fresh_h();
+        let n2 = n - self.rng.pick(&[0u64, 1, 100]);
+        if self.emit(format!("alloc_bytes {h2} {n2}")).starts_with("r=ok") {
+          self.emit(format!("drop {h2}"));
+        }
+      }
     }
     match self.profile {
       Profile::Mix => self.run_mix(usize::MAX, false),
